@@ -274,7 +274,8 @@ def u_expanded_constraints():
                 c.prove("post:an-argument-that-is-not-a-list-is-rejected", z3.BoolVal(False), prop=PP)
             else:
                 c.prove("post:lists-of-%s-are-expanded-by-the-%s-expander-applied-to-the-whole-argument" % (kind, kind),
-                        z3.BoolVal(len(calls) == 1 and calls[0][0] == kind and calls[0][1] is arg and r == kind.upper() + "-RESULT"), prop=PP)
+                        z3.BoolVal(len(calls) == 1 and calls[0][0] == kind and isinstance(calls[0][1], list) and len(calls[0][1]) == 2 and all(x is y for x, y in zip(calls[0][1], arg))
+                                   and r == kind.upper() + "-RESULT"), prop=PP)
                 c.prove("post:normal-return-only-if-no-constraint-is-empty", z3.And(arg[0].n > 0, arg[1].n > 0), prop=PP)
         return Unit(F, "NodeExpandedDiGraph.get_expanded_subpath_constraints", h, globs=g, props=[P, "C10"],
                     name="%s:NodeExpandedDiGraph.get_expanded_subpath_constraints[%s]" % (F, kind),
